@@ -19,14 +19,13 @@ TRUSTED_BASE = [
 ]
 ASSUMPTIONS = ["block rates in [0,1], multipliers in [0,10]; providers' units sum to at most the pool units (C02) for the lower bound"]
 UNPROVED = [
-    "n-provider lower bound |paid_i - share_i*D| <= n*(1 + D*1e-18) after the running clamp: proved for the epoch bucket payout (bucket_amounts_fair, any number of providers, with fix F26); for LPPD / depth-reward pool payouts it is judged on implementation vectors (fairPool) and "
-    "proved only as the single-provider bound provider_amount_pro_rata plus the clamp total pool_payouts_clamped",
+    "n-provider lower bound |paid_i - share_i*D| <= n*(1 + D*1e-18) after the running clamp: proved for the epoch bucket payout (bucket_amounts_fair, with fix F26) and for one pool's LPPD / depth-reward payout (pool_payouts_fair), any number of providers",
     "depth split: per-pool weighted-share bound is judged (fairSplit) but only the total (sum <= block distribution) is proved",
     "ineligible accounts receive nothing: judged on every L1 hook (recipientsOK), not proved as a theorem",
 ]
 MANIFEST = {
-    "text": "Lean 4 theorems over exact models of the three payout collectors (sdk.Dec banker's rounding included): a provider's amount is within 1 base unit + 1e-18*D of its share for all magnitudes; pool payouts sum to at most rnd(rate*balance) for any number of providers; depth rewards sum to at most the block distribution; the epoch bucket amounts of any number of providers add up to at most the bucket and each is within 1 + (n+1)*B*1e-18 of its share (bucket_amounts_fair). The L1 predicates epochSharesOK (every eligible provider's wallet gain) and splitObservedOK (per-pool depth rewards of one real EndBlocker) judge the hooks themselves. Tied to the Go collectors by L0/L1 differential execution with Lean-judged payout vectors.",
-    "note": "Trusted: Lean kernel (+3 standard axioms), hand-written model tied only by the correspondence, harness/driver. The n-provider lower bound and 'ineligible receive nothing' are judged on implementation outputs, not proved.",
+    "text": "Lean 4 theorems over exact models of the three payout collectors (sdk.Dec banker's rounding included): a provider's amount is within 1 base unit + 1e-18*D of its share for all magnitudes; pool payouts sum to at most rnd(rate*balance) for any number of providers; depth rewards sum to at most the block distribution; the epoch bucket amounts of any number of providers add up to at most the bucket and each is within 1 + (n+1)*B*1e-18 of its share (bucket_amounts_fair); the providers of one pool in an LPPD / depth-reward payout are each within (n+1)*(1 + D*1e-18) + 1/2 of their share (pool_payouts_fair). The L1 predicates epochSharesOK (every eligible provider's wallet gain) and splitObservedOK (per-pool depth rewards of one real EndBlocker) judge the hooks themselves. Tied to the Go collectors by L0/L1 differential execution with Lean-judged payout vectors.",
+    "note": "Trusted: Lean kernel (+3 standard axioms), hand-written model tied only by the correspondence, harness/driver. The per-pool weighted split of depth rewards and 'ineligible receive nothing' are judged on implementation outputs, not proved.",
     "technique": "Lean 4 proof (rational error bounds of fixed-point rounding) + differential correspondence",
     "design_ref": "4/C18",
 }
